@@ -11,7 +11,7 @@ from ..symeval import Raised, Evaluator
 from ..values import Unsupported
 from ..model import norm
 from ..sign import facts_nonneg, is_nonneg
-from .c19 import reader_factor_agreement
+from .c19 import reader_factor_agreement, explicit_definition
 
 EXPLANATION = (
     "The reader classes are evaluated by the term evaluator against a model of the baseband stream reader (an object with the "
@@ -99,6 +99,13 @@ def check(run, prog):
     single_read_per_request(ck, prog, "R2")
     delayed_names_rule(ck, prog, "R2")
     reader_factor_agreement(ck, prog, "R4")
+    # what a real-sampled reader hands to real_to_complex: 2n real samples along axis 0 (n = 1 is the one-sample read), any sample shape
+    fi_r2c = prog.func("real_to_complex")
+    run.touched(fi_r2c)
+    plans = [((2,), 0), ((4,), 0), ((6,), 0), ((2, 2), 0), ((4, 2), 0), ((2, 1, 2), 0)]
+    if run.tier != "quick":
+        plans += [((8,), 0), ((10,), 0), ((6, 2), 0), ((4, 2, 2), 0)]
+    explicit_definition(ck, prog, fi_r2c, "R4", plans=plans, floor=len(plans))
     run.extra["decided_by"] = ck.how
 
 
